@@ -54,6 +54,15 @@ var propInfo = map[string]struct {
 			"the preconditions under which a function is panic-free are those of its contract; that every caller establishes them is checked at the call sites that are themselves under contract",
 			"panics inside standard-library callees are not modelled (regexp.Compile and strconv return errors; fmt does not panic on the values passed)",
 		}},
+	"C01": {"proof",
+		"Row mode, proved on the real code. (1) The evaluator computes the documented meaning of the operators from the values of their operands: BinaryOpExpr.Execute, for every operator code, operand values and pair - `=`/`!=` (equal bytes for texts, equal numbers for integers, equal truth values), `^=` (prefix), `&`/`|` and their keyword forms (Boolean, left to right, the right operand not needed when the left decides), `> >= < <=` (byte-wise on texts when the left operand's static type is text, numeric otherwise: integers exactly, anything involving a float as floats), `+ - * /` (integers stay integers with truncating division, any float operand makes it a float operation, division by zero is an error), `!`; literals and key / value evaluate to themselves; each with its exact definedness condition (when it returns an error). (2) The scans return exactly the filtered pairs in cursor order: FullScan / PrefixScan / RangeScan / MultiGet Next return the next pair of the cursor (or key list) on which the filter evaluates to true, every pair skipped before it fails the filter (ghost index), the end is reported only when the cursor (region) is exhausted, and Seek / prefix / range bounds lose no key of the region (byte-string order axioms). (3) Filter returns exactly `the filter expression evaluates to the Boolean true`.",
+		[]string{
+			"NOT covered: regular-expression match, IN and BETWEEN (thin assumed contracts for execRegexpMatch / exec*In / exec*Between: the code refuses `x between a and a` although the documented meaning allows it - recorded in DESIGN.md as an open observation), scalar functions and field access (C10), string concatenation's value, the batch-mode twins (C03), that the composition scan -> projection -> caller yields each pair once (on paper from the per-call contracts and the cursor axioms)",
+			"A-EVAL: the outcome of evaluating an expression on a pair is a function of the expression and the pair; for operator nodes the interface clauses `evalok` / `evalv` name that outcome (definitional), the proved clauses relate it to the operands' outcomes",
+			"A-STORE: a cursor iterates a snapshot in strictly ascending key order, Seek positions at the first key >= its argument",
+			"static result types (rtype) are the specification function of C14 (A-RTYPE)",
+			"D14 (DESIGN.md section 6): `=` on two floats is an execution-time type error; the documented `=` is `bytes level equals`, so this is not claimed as a violation here",
+		}},
 	"C04": {"proof",
 		"Two of the three rewriting steps are proved on the real code. (1) Boolean simplification (tryOptimizeAndOr): for an arbitrary pair, wherever the original expression evaluates the rewritten one evaluates to the same Boolean (12 return sites: true & x, x & false, false | x, ... and the all-literal cases), against the documented short-circuit meaning of & and |. (2) Constant folding of a binary node (tryOptimizeBinaryOpExecute): the literal that replaces the node carries exactly the value Execute returned, of the same kind (integer stays integer, float stays float, text stays text, Boolean stays Boolean), the unchecked type assertions cannot fail, and child links are never left nil.",
 		[]string{
